@@ -245,7 +245,10 @@ impl Normalizer for Sequence {
         for normalizer in &self.normalizers {
             let (next_normalized, mut next_offsets) = normalizer.normalize(&normalized)?;
             for offset in next_offsets.iter_mut() {
-                *offset = offsets[*offset];
+                // The offset is equal to the length of this normalizer's input
+                // if it added text at the end. That corresponds to the end of
+                // the original text.
+                *offset = offsets.get(*offset).copied().unwrap_or(text.len());
             }
             normalized = next_normalized;
             offsets = next_offsets;
@@ -611,6 +614,26 @@ mod tests {
             assert_eq!(normalized, expected);
             assert_eq!(offsets, expected_offsets);
         })
+    }
+
+    #[test]
+    fn test_sequence_insert_at_end() {
+        let seq = Sequence::from_vec([replace_normalizer("$", "!")].into());
+        let (normalized, offsets) = seq.normalize("ab").unwrap();
+        assert_eq!(normalized, "ab!");
+        assert_eq!(offsets, [0, 1, 2]);
+
+        let seq = Sequence::from_vec(
+            [
+                lowercase_normalizer(),
+                replace_normalizer("x*", "_"),
+                replace_normalizer("$", "."),
+            ]
+            .into(),
+        );
+        let (normalized, offsets) = seq.normalize("İ").unwrap();
+        assert_eq!(normalized, "_i_\u{307}_.");
+        assert_eq!(offsets, [0, 0, 0, 0, 0, 2, 2]);
     }
 
     #[test]
